@@ -13,9 +13,9 @@ import (
 
 func c03Counts(tier string) (bulk, large int) {
 	if tier == "thorough" {
-		return 40000, 48
+		return 120000, 64
 	}
-	return 2400, 8
+	return 10000, 8
 }
 
 func init() {
